@@ -27,6 +27,10 @@ def run(ctx):
     agg = run_family("C10i18n", progs, NAMES, dev=dev, invariants=INVS, perms=(0, 1), timeout=3000)
     ctx.add_family(agg)
     c10_extra.run(ctx, rnd)
+    c10_extra.per_render(ctx)
+    # translated attributes are translated wherever the element's start tag is written: also in the tal:on-error fallback
+    from .c13 import fallback_tag_part
+    fallback_tag_part(ctx)
     for f in ctx.known():
         ctx.witness(f)
     ctx.exhaustive = True
